@@ -725,6 +725,47 @@ def answer (line : String) : String :=
             | _ => "err"
           | _ => "bad"
       | _ => "bad"
+    | "subeq" =>
+      match a with
+      | [kind, h, o] =>
+        match unhex h, unhex o with
+        | some v, some other =>
+          let one (r : Res Bytes) : String :=
+            match r with
+            | .ok s => s!"ok {b01 (s == other)} txt={esc s}"
+            | _ => "err"
+          match kind with
+          | "lang" => match Language.fromBytes v with
+            | .ok l => s!"ok {b01 (Language.eqStr l other)} txt={esc (Language.asStr l)}"
+            | _ => "err"
+          | "script" => one (Script.fromBytes v)
+          | "region" => one (Region.fromBytes v)
+          | "variant" => one (Variant.fromBytes v)
+          | _ => "bad"
+        | _, _ => "bad"
+      | _ => "bad"
+    | "substr" =>
+      match a with
+      | [kind, h] =>
+        match unhex h with
+        | none => "bad"
+        | some v =>
+          let one (r : Res Bytes) : String :=
+            match r with
+            | .ok s => s!"ok {esc s}"
+            | .err e => errCode e
+            | .panic => "panic"
+          let sp (is : Bytes → Bool) (norm : Bytes → Bytes) : String := if is v then s!"ok {esc (norm v)}" else "err S"
+          match kind with
+          | "script" => withSpec (one (Script.fromBytes v)) (sp Spec.isScript title)
+          | "region" => withSpec (one (Region.fromBytes v)) (sp Spec.isRegion upper)
+          | "variant" => withSpec (one (Variant.fromBytes v)) (sp Spec.isVariant lower)
+          | "ext" => match ExtMap.fromBytes v with
+            | .ok e => s!"ok {renderExt e};str={esc e.display}"
+            | .err e => errCode e
+            | .panic => "panic"
+          | _ => "bad"
+      | _ => "bad"
     | "exttype" =>
       match (a[0]?).bind String.toNat? with
       | some n =>
